@@ -207,6 +207,11 @@ func c11Run(c *core.Ctx, i int) {
 		}
 		c.Violation("wrong-outcome:"+form, fmt.Sprintf("%s: expected an Evy panic of kind %v, got %s %q %s with output %v", what, kinds, o.Class, o.ErrText, o.GoPanic, o.Events), src, nil)
 	}
+	if i < 24 {
+		// beside the grid: slices of arrays of composites (fresh outer array, shared elements), judged
+		// against the reference interpreter
+		runTextFamily(c, "slice-sharing", sliceSharingSource(c.Rng), nil)
+	}
 	switch form {
 	case "read-reassigned", "runtime-string", "concat-after-index":
 		if ct.kind != "string" {
